@@ -663,3 +663,41 @@ func (P *Prog) embeddable(t types.Type) bool {
 	}
 	return P.embed[typeKey(t)]
 }
+
+// ifacePureSym: the SMT function standing for a pure interface method (contract marked pure).
+func (P *Prog) ifacePureSym(t types.Type, method string) (string, types.Type, error) {
+	if t == nil {
+		return "", nil, fmt.Errorf("method %s of untyped value", method)
+	}
+	it, ok := t.Underlying().(*types.Interface)
+	if !ok {
+		return "", nil, fmt.Errorf("%s.%s: not an interface value", t, method)
+	}
+	tn := typeKey(t)
+	if i := strings.LastIndex(tn, "."); i >= 0 {
+		tn = tn[i+1:]
+	}
+	fc, ok := P.ifaces[tn+"."+method]
+	if !ok || !fc.Pure {
+		return "", nil, fmt.Errorf("interface method %s.%s has no pure contract", tn, method)
+	}
+	for i := 0; i < it.NumMethods(); i++ {
+		m := it.Method(i)
+		if m.Name() != method {
+			continue
+		}
+		sig := m.Type().(*types.Signature)
+		if sig.Results().Len() != 1 {
+			return "", nil, fmt.Errorf("pure interface method %s.%s must have one result", tn, method)
+		}
+		sym := "IFM_" + sanitize(tn) + "_" + method
+		ps := []string{"Iface"}
+		for j := 0; j < sig.Params().Len(); j++ {
+			ps = append(ps, P.sorts.sortOf(sig.Params().At(j).Type()))
+		}
+		rt := sig.Results().At(0).Type()
+		P.addModule(sym, fmt.Sprintf("(declare-fun %s (%s) %s)", sym, strings.Join(ps, " "), P.sorts.sortOf(rt)))
+		return sym, rt, nil
+	}
+	return "", nil, fmt.Errorf("no method %s in %s", method, t)
+}
